@@ -17,6 +17,9 @@ import (
 	"encoding/hex"
 	"encoding/json"
 	"fmt"
+	"hash/adler32"
+	"hash/crc32"
+	"hash/fnv"
 	"io"
 	"math/big"
 	"os"
@@ -142,6 +145,13 @@ type world struct {
 	issued  []issuedID
 
 	unparsed []string // private key protos in which no key_value field was found
+
+	nonceID     map[string]int // nonce bytes -> number (equal bytes = equal number)
+	blobEvents  []string       // encryptions of a master key under the passphrase-derived key: (key term, nonce)
+	writeEvents []string       // per stored value: keyset under the DEK, DEK under the master key
+	seenPair    map[string]string
+	reuse       string
+	confusable  []string // wrong passphrases that a sloppy comparison / a weak digest may take for the right one
 }
 
 type issuedID struct {
@@ -241,7 +251,7 @@ func newLock(cfg string, masterKey []byte, protected, pass string, salt []byte) 
 }
 
 func newWorld(cfg string, r *hx.Rng) *world {
-	w := &world{cfg: cfg, matAtom: map[string]int{}, dekAtom: map[string]int{}}
+	w := &world{cfg: cfg, matAtom: map[string]int{}, dekAtom: map[string]int{}, nonceID: map[string]int{}, seenPair: map[string]string{}}
 	w.raw = mem.NewProvider()
 	w.rec = hx.NewRecProvider(w.raw)
 	w.masterKey = r.Bytes(32)
@@ -258,7 +268,7 @@ func newWorld(cfg string, r *hx.Rng) *world {
 		}
 	}
 
-	w.passphrase = "pass-" + hex.EncodeToString(r.Bytes(12))
+	w.passphrase, w.confusable = choosePassphrase(r)
 	w.salt = r.Bytes(16)
 
 	if !isRawCfg(cfg) {
@@ -325,6 +335,112 @@ func (w *world) addSecret(what string, b []byte) {
 	}
 
 	w.secrets = append(w.secrets, secret{what, append([]byte(nil), b...)})
+}
+
+// event records one encryption: the key (as a term) and the nonce found in the ciphertext bytes.
+func (w *world) event(list *[]string, keyTerm, what string, nonce []byte) {
+	id, ok := w.nonceID[string(nonce)]
+	if !ok {
+		id = len(w.nonceID)
+		w.nonceID[string(nonce)] = id
+	}
+
+	*list = append(*list, fmt.Sprintf("(%s, %d)", keyTerm, id))
+
+	pair := keyTerm + "/" + string(nonce)
+	if first, dup := w.seenPair[pair]; dup && w.reuse == "" {
+		w.reuse = fmt.Sprintf("the nonce %x is used twice under one key: %s and %s", nonce, first, what)
+	}
+
+	w.seenPair[pair] = what
+}
+
+// ownLockKey derives the master lock's key from the passphrase the way RFC 5869 / RFC 8018 say (not through the lock).
+func ownLockKey(cfg, pass string, salt []byte) ([]byte, int) {
+	if cfg == "hkdf" {
+		lk := make([]byte, 32)
+		_, _ = io.ReadFull(hkdf.New(sha256.New, []byte(pass), salt, nil), lk)
+
+		return lk, 4
+	}
+
+	return pbkdf2.Key([]byte(pass), salt, pbkdf2Iter, 32, sha256.New), 6
+}
+
+// blob records a protected master key: it must open, under the harness's own derivation, to the key that was protected.
+func (w *world) blob(cfg, protected string, plain []byte, what string) (term string, ok bool) {
+	lk, label := ownLockKey(cfg, w.passphrase, w.salt)
+
+	raw, err := base64.URLEncoding.DecodeString(protected)
+	if err != nil || len(raw) < 13 {
+		return "Junk 9", false
+	}
+
+	keyT := fmt.Sprintf("Kdf [Bytes %d; Bytes 3; Bytes 2]", label)
+
+	pt, err := gcmOpen(lk, raw, []byte{})
+	if err != nil || !bytes.Equal(pt, plain) {
+		w.event(&w.blobEvents, "Junk 9", what, raw[:12])
+		return "Junk 9", false
+	}
+
+	w.event(&w.blobEvents, keyT, what, raw[:12])
+
+	return fmt.Sprintf("AEnc (%s) (Bytes 0) (Bytes 1)", keyT), true
+}
+
+// weakDigests: cheap iterative 32-bit checksums somebody may index passphrases by.
+var weakDigests = []struct {
+	name string
+	f    func([]byte) uint32
+}{
+	{"fnv32a", func(b []byte) uint32 { h := fnv.New32a(); _, _ = h.Write(b); return h.Sum32() }},
+	{"fnv32", func(b []byte) uint32 { h := fnv.New32(); _, _ = h.Write(b); return h.Sum32() }},
+	{"crc32", crc32.ChecksumIEEE},
+	{"adler32", adler32.Checksum},
+	{"java31", func(b []byte) uint32 {
+		var h uint32
+		for _, c := range b {
+			h = 31*h + uint32(c)
+		}
+
+		return h
+	}},
+}
+
+var collidingPairs = map[string][2]string{}
+
+// choosePassphrase picks the owner's passphrase together with wrong passphrases that must NOT open the lock although
+// they agree with the right one under a sloppy comparison: one more character, one less, other case, surrounding
+// blanks, a common prefix of 8 bytes, and (birthday search, both chosen by the harness) the same value under one of
+// the cheap iterative 32-bit checksums above (iterative: the collision survives any common suffix such as the salt).
+func choosePassphrase(r *hx.Rng) (string, []string) {
+	d := weakDigests[r.Intn(len(weakDigests))]
+
+	pair, ok := collidingPairs[d.name]
+	if !ok {
+		seen := map[uint32]string{}
+		g := hx.NewRng(uint64(len(d.name)) + 99)
+
+		for {
+			c := "Pass-" + hex.EncodeToString(g.Bytes(9))
+			v := d.f([]byte(c))
+
+			if o, hit := seen[v]; hit && o != c {
+				pair = [2]string{o, c}
+				break
+			}
+
+			seen[v] = c
+		}
+
+		collidingPairs[d.name] = pair
+	}
+
+	p := pair[0]
+
+	return p, []string{pair[1], p + "x", p[:len(p)-1], strings.ToUpper(p), strings.ToLower(p), " " + p, p + " ",
+		p[:8] + hex.EncodeToString(r.Bytes(9))}
 }
 
 // ---------- rebuilding a stored value as a term ----------
@@ -459,6 +575,11 @@ func (w *world) rebuild(pos int, op Op, value []byte) (term string, bad string) 
 		}
 
 		keys = append(keys, fmt.Sprintf("Bytes %d", a))
+	}
+
+	if len(payload) > 12 && len(encDEK) > 12 {
+		w.event(&w.writeEvents, fmt.Sprintf("Bytes %d", dAtom), fmt.Sprintf("keyset of op %d under its DEK", pos), payload[:12])
+		w.event(&w.writeEvents, wrapKey, fmt.Sprintf("DEK of op %d under the master key", pos), encDEK[:12])
 	}
 
 	term = fmt.Sprintf("Tup [AEnc (Bytes %d) (Bytes 0) (Tup %s); AEnc (%s) (%s) (Bytes %d)", dAtom, hx.CoqList(keys), wrapKey, aadT, dAtom)
@@ -844,29 +965,23 @@ func runHistory(kind, cfg string, ops []Op, r *hx.Rng, tr *hx.Trace) {
 	protT := "[]"
 
 	if !isRawCfg(cfg) {
-		var lk []byte
+		t, ok := w.blob(cfg, w.protected, w.masterKey, "the protected master key")
+		protT = "[" + t + "]"
 
-		label := 4
-
-		if cfg == "hkdf" {
-			lk = make([]byte, 32)
-			_, _ = io.ReadFull(hkdf.New(sha256.New, []byte(w.passphrase), w.salt, nil), lk)
-		} else {
-			lk = pbkdf2.Key([]byte(w.passphrase), w.salt, pbkdf2Iter, 32, sha256.New)
-			label = 6
-		}
-
-		blob, err := base64.URLEncoding.DecodeString(w.protected)
-		if err != nil {
-			blob = nil
-		}
-
-		pt, err := gcmOpen(lk, blob, []byte{})
-		if err != nil || !bytes.Equal(pt, w.masterKey) {
-			protT = "[Junk 9]"
+		if !ok {
 			fail("protected-master:not-under-derived-key", "the protected master key does not open under the passphrase-derived key")
-		} else {
-			protT = fmt.Sprintf("[AEnc (Kdf [Bytes %d; Bytes 3; Bytes 2]) (Bytes 0) (Bytes 1)]", label)
+		}
+
+		// a master key roll-over by the SAME lock instance (two more protections), and one by a NEW lock instance
+		if ml, err := masterLock(cfg, w.passphrase, w.salt); err == nil {
+			for i := 0; i < 2; i++ {
+				nk := r.Fork(uint64(777 + i)).Bytes(32)
+				if enc, e := ml.Encrypt("", &secretlock.EncryptRequest{Plaintext: string(nk)}); e == nil {
+					if _, ok = w.blob(cfg, enc.Ciphertext, nk, fmt.Sprintf("roll-over %d by one lock instance", i)); !ok {
+						fail("protected-master:not-under-derived-key", "a rolled-over master key does not open under the passphrase-derived key")
+					}
+				}
+			}
 		}
 	}
 
@@ -906,6 +1021,10 @@ func runHistory(kind, cfg string, ops []Op, r *hx.Rng, tr *hx.Trace) {
 				ml, _ := masterLock(dl, w.passphrase, w.salt)
 				if enc, err := ml.Encrypt("", &secretlock.EncryptRequest{Plaintext: string(pr.key)}); err == nil {
 					prot2 = enc.Ciphertext
+
+					if _, ok := w.blob(dl, prot2, pr.key, "another master key protected by a new lock instance"); !ok {
+						fail("protected-master:not-under-derived-key", "a second protected master key does not open under the passphrase-derived key")
+					}
 				}
 			}
 
@@ -939,10 +1058,26 @@ func runHistory(kind, cfg string, ops []Op, r *hx.Rng, tr *hx.Trace) {
 	}
 
 	if !isRawCfg(cfg) {
-		if _, err := newLock(cfg, nil, w.protected, w.passphrase+"x", w.salt); err == nil {
+		for _, wp := range w.confusable {
+			if wp == w.passphrase || wp == "" {
+				continue
+			}
+
+			wl, err := newLock(cfg, nil, w.protected, wp, w.salt)
+			if err != nil {
+				continue
+			}
+
 			wrongUnlocks = true
 
-			fail("wrong-passphrase:unlocks", "local.NewService succeeded with another passphrase")
+			fail("wrong-passphrase:unlocks", fmt.Sprintf("local.NewService succeeded with the passphrase %q instead of %q", wp, w.passphrase))
+
+			k2 := w.open(wl, false)
+			for _, is := range w.issued {
+				if _, e := k2.Get(is.id); e == nil {
+					fail("wrong-passphrase:reads", fmt.Sprintf("Get(%q) succeeded under the passphrase %q", is.id, wp))
+				}
+			}
 		}
 
 		if _, err := newLock(cfg, nil, w.protected, w.passphrase, append([]byte{1}, w.salt...)); err == nil {
@@ -982,12 +1117,17 @@ func runHistory(kind, cfg string, ops []Op, r *hx.Rng, tr *hx.Trace) {
 		}
 	}
 
+	if w.reuse != "" {
+		fail("nonce-reuse", w.reuse)
+	}
+
 	cfgT := map[string]string{"hkdf": "LHkdf", "pbkdf2": "LPbkdf2"}[cfg]
 	if isRawCfg(cfg) {
 		cfgT = "LRaw"
 	}
-	rec.Coq = fmt.Sprintf("{| c_cfg := %s; c_ops := %s; c_obs := %s; c_protected := %s; c_wrong_master_reads := %s; c_wrong_pass_unlocks := %s |}",
-		cfgT, hx.CoqList(coqOps), hx.CoqList(coqObs), protT, hx.CoqBool(wrongReads), hx.CoqBool(wrongUnlocks))
+	rec.Coq = fmt.Sprintf("{| c_cfg := %s; c_ops := %s; c_obs := %s; c_protected := %s; c_wrong_master_reads := %s; c_wrong_pass_unlocks := %s; c_nblobs := %d%%nat; c_events := %s |}",
+		cfgT, hx.CoqList(coqOps), hx.CoqList(coqObs), protT, hx.CoqBool(wrongReads), hx.CoqBool(wrongUnlocks),
+		len(w.blobEvents), hx.CoqList(append(append([]string{}, w.blobEvents...), w.writeEvents...)))
 	rec.Observed = map[string]interface{}{"ops": obs, "secrets_tracked": len(w.secrets), "haystacks": len(w.hay)}
 	rec.Class = cfg + ":" + strings.Join(class, ",")
 	rec.Trivial = !nontrivl && nWrites < 2
@@ -1159,7 +1299,7 @@ func main() {
 		{Kind: "createx", KT: "NISTP256ECDHKW"}, {Kind: "import", KT: "ED25519"}, {Kind: "import", KT: "ECDSAP256DER", UID: true},
 		{Kind: "rotate", Ref: 0}, {Kind: "rotate", Ref: 1}, {Kind: "get", Ref: 0}, {Kind: "export", Ref: 0}, {Kind: "export", Ref: 1}}
 
-	depth, nRandom := 2, 4000
+	depth, nRandom := 2, 2500
 	if args.Tier == "thorough" {
 		depth, nRandom = 3, 12000
 	}
